@@ -50,4 +50,10 @@ CHECKS = {
         "text": "Every combination of 12 charset/byte-order configurations, six ways of delimiting, fixed/looked-up/referenced lengths with every adjustment, and every content over a 5-symbol alphabet (plus every binary length 0..40 bits) is decoded from generated documents at several bit offsets; value, raw buffer, following sentinel and cursor are compared with the reference.",
         "note": "Unspecified corners (buffer without terminator, size tag beyond the unpadded buffer, terminator found only in padding bits) are enumerated but not judged; Python codecs are trusted as character tables.",
     },
+    "C14": {
+        "level": "exploration",
+        "technique": "bounded-exhaustive enumeration of layouts x packet lengths x length-field values through packet_generator, against reference bit accounting",
+        "text": "For every fixed and length-dependent layout of the bound, every data length from 1 byte to 3 bytes beyond what the layout needs, every LEN value and both parse_bad_pkts settings, the generator's behaviour is classified (clean / flagged / withheld / raised) and compared with the reference: clean iff well-formed and exactly consumed, otherwise flagged-or-raised (or withheld-or-raised).",
+        "note": "'Flagged' means any warning emitted while the packet is processed (not a message match).",
+    },
 }
